@@ -32,22 +32,36 @@ def cfg(path, body):
     return path
 
 
-CONST = "CONSTANTS\n  Emit = %s\n  FixObs = %s\n"
+def _b(x):
+    return "TRUE" if x else "FALSE"
 
 
-def model_check(tag, shape_names, props, invariants, fixobs=False, coverage=True, timeout=1700, workers=16, liveness=False):
+def consts(emit=False, fixobs=False, kill=False, starts=(0,), max_sleeps=0, memo=False, all_orders=True):
+    """The CONSTANTS section of a cfg for Scheduler.tla.  kill / starts / max_sleeps / memo switch on the environment
+    actions of the growth item G02 (external kill, restart from a later stage, sleep / wake-up, memoization answers);
+    with the defaults the model is the one of a fresh launch without any of them."""
+    return ("CONSTANTS\n  Emit = %s\n  FixObs = %s\n  Kill = %s\n  Starts = {%s}\n  MaxSleeps = %d\n  Memo = %s\n  AllOrders = %s\n" % (
+        _b(emit), _b(fixobs), _b(kill), ", ".join(str(int(x)) for x in starts), max_sleeps, _b(memo), _b(all_orders)))
+
+
+def model_check(tag, shape_names, props, invariants, fixobs=False, coverage=True, timeout=1700, workers=16, liveness=False,
+                deadlock=False, **env):
+    """deadlock=True: NEXT NextOrIdle with CHECK_DEADLOCK (a state without successor must be the quiescent one)."""
     d = rundir(tag, shape_names)
-    body = CONST % ("FALSE", "TRUE" if fixobs else "FALSE")
-    body += "SPECIFICATION %s\n" % ("FairSpec" if liveness else "Spec")
+    body = consts(False, fixobs, **env)
+    if deadlock:
+        body += "INIT Init\nNEXT NextOrIdle\n"
+    else:
+        body += "SPECIFICATION %s\n" % ("FairSpec" if liveness else "Spec")
     body += "".join("INVARIANT %s\n" % i for i in invariants) + "".join("PROPERTY %s\n" % p for p in props)
-    body += "CHECK_DEADLOCK FALSE\n"
+    body += "CHECK_DEADLOCK %s\n" % ("TRUE" if deadlock else "FALSE")
     c = cfg(os.path.join(d, "mc.cfg"), body)
     return tlc.run_tlc("Scheduler", c, specdir=d, coverage=coverage, timeout=timeout, workers=workers, expect_violation=True)
 
 
-def emit_terminals(tag, shape_names, fixobs=False, timeout=1700):
+def emit_terminals(tag, shape_names, fixobs=False, timeout=1700, **env):
     d = rundir(tag + "_emit", shape_names)
-    body = CONST % ("TRUE", "TRUE" if fixobs else "FALSE") + "SPECIFICATION Spec\nINVARIANT EmitTerminal\nCHECK_DEADLOCK FALSE\n"
+    body = consts(True, fixobs, **env) + "SPECIFICATION Spec\nINVARIANT EmitTerminal\nCHECK_DEADLOCK FALSE\n"
     c = cfg(os.path.join(d, "emit.cfg"), body)
     return tlc.run_tlc("Scheduler", c, specdir=d, workers=1, timeout=timeout)
 
@@ -72,29 +86,48 @@ POLICIES = [(1, 0.2, 1.0), (3, 0.5, 0.05), (6, 0.8, 1.0), (15, 0.5, 20.0), (60, 
             (-4, 0.02, 1.0), (-8, 0.02, 1.0), (3, 0.02, 1.0)]
 
 
-def run_real(cases, schedules, scratch, base_seed, per_shape_budget=None):
+def make_policy(sched):
+    """sched = (seed, burst_max, env_bias, ctrl_weight[, env]) with env = dict(kill_p, sleep_p, wake_p, max_sleeps)."""
+    from . import ctl
+    seed_, bm, eb, cw = sched[:4]
+    env = dict(sched[4]) if len(sched) > 4 and sched[4] else {}
+    return ctl.RandomPolicy(seed_, burst_max=abs(bm), env_bias=eb, ctrl_weight=cw, eager_internal=bm < 0, **env)
+
+
+def run_real(cases, schedules, scratch, base_seed, per_shape_budget=None, env_for=None, catch_crash=False):
     """Runs every case under seeded random schedules on the real Controller. Returns list of harnesses.
-    `schedules` per case; with per_shape_budget, shapes with few cases get more schedules per case (<= 3x)."""
+    `schedules` per case; with per_shape_budget, shapes with few cases get more schedules per case (<= 3x).
+    A case is (sid, shape, oa) or (sid, shape, oa, extra) with extra = dict(start=k, memo=[node names], nopop=[..]).
+    env_for(ci, k) -> dict(kill_p=.., sleep_p=.., wake_p=.., max_sleeps=..) or None: the calls into the controller from
+    outside (external kill, sleep / wake-up) the schedule k of case ci is allowed to make."""
     from . import ctl
     runs = []
     per_shape = {}
-    for (_sid, sn, _oa) in cases:
-        per_shape[sn] = per_shape.get(sn, 0) + 1
-    for ci, (sid, sn, oa) in enumerate(cases):
+    for case in cases:
+        per_shape[case[1]] = per_shape.get(case[1], 0) + 1
+    for ci, case in enumerate(cases):
+        sid, sn, oa = case[:3]
+        extra = dict(case[3]) if len(case) > 3 and case[3] else {}
         nsched = schedules
         if per_shape_budget:
             nsched = max(schedules, min(3 * schedules, -(-per_shape_budget // per_shape[sn])))
         for k in range(nsched):
             bm, eb, cw = POLICIES[(k + ci) % len(POLICIES)]
-            pol = ctl.RandomPolicy(base_seed * 1000003 + ci * 101 + k, burst_max=abs(bm), env_bias=eb, ctrl_weight=cw, eager_internal=bm < 0)
-            h = ctl.run_case(sn, oa, scratch, pol)
-            h.sid, h.case_index, h.sched = sid, ci, (base_seed * 1000003 + ci * 101 + k, bm, eb, cw)
+            env = env_for(ci, k) if env_for else None
+            sched = (base_seed * 1000003 + ci * 101 + k, bm, eb, cw) + ((env,) if env else ())
+            h = ctl.run_case(sn, oa, scratch, make_policy(sched), catch_crash=catch_crash, **extra)
+            h.sid, h.case_index, h.sched, h.extra = sid, ci, sched, extra
             runs.append(h)
     return runs
 
 
-def validate_traces(tag, shape_names, runs, props=("TLaunchSafeModuloKnown", "TFinalAbsorbing", "TNoRunAfterFinal"),
-                    invariants=("TypeOK", "DoneImpliesFinal", "RunOnlyStaged", "RestartBound"), fixobs=False, batch=400, timeout=1700):
+TRACE_PROPS = ("TFinalAbsorbing", "TNoRunAfterFinal", "TNoLaunchAfterStop", "TNoLaunchWhileAsleep", "TNoStageInWhileAsleep")
+TRACE_INVS = ("TypeOK", "DoneImpliesFinal", "RunOnlyStaged", "RestartBound", "KillReachesAll", "SkippedUntouched", "StageFromStart",
+              "PostponedRecorded", "FailureHandled", "MemoNeverRuns", "MemoEndsFinished", "MemoOfferedNeverRuns")
+
+
+def validate_traces(tag, shape_names, runs, props=("TLaunchSafeModuloKnown",) + TRACE_PROPS,
+                    invariants=TRACE_INVS, fixobs=False, batch=400, timeout=1700):
     """Validates the recorded runs against SchedulerTrace.tla.  Returns (results, tlc results) where results[i] is
     None (accepted) or dict(step=..., kind=...)."""
     from . import ctl
@@ -105,7 +138,8 @@ def validate_traces(tag, shape_names, runs, props=("TLaunchSafeModuloKnown", "TF
         d = rundir("%s_tr%d" % (tag, b0 // batch), shape_names)
         with open(os.path.join(d, "SchedTraceData.tla"), "w") as f:
             f.write("---- MODULE SchedTraceData ----\nTraces == <<\n  %s\n>>\n====\n" % ",\n  ".join(ctl.trace_to_tla(h, h.sid) for h in chunk))
-        body = (CONST % ("FALSE", "TRUE" if fixobs else "FALSE")) + "SPECIFICATION TraceSpec\nCONSTRAINT Record\nPOSTCONDITION AllAccepted\n"
+        # the environment actions are all allowed when matching a recorded run (what happened is in the record)
+        body = consts(False, fixobs, kill=True, starts=(0,), max_sleeps=99, memo=True) + "SPECIFICATION TraceSpec\nCONSTRAINT Record\nPOSTCONDITION AllAccepted\n"
         body += "".join("INVARIANT %s\n" % i for i in invariants) + "".join("PROPERTY %s\n" % p for p in props) + "CHECK_DEADLOCK FALSE\n"
         c = cfg(os.path.join(d, "trace.cfg"), body)
         r = tlc.run_tlc("SchedulerTrace", c, specdir=d, workers=1, timeout=timeout, expect_violation=True)
